@@ -27,6 +27,7 @@ type Tier struct {
 	SeedJ        []int  // right-pad lengths of the seed embeddings
 	SeedEmbFirst int    // when > 0 only the first SeedEmbFirst seed patterns (the seeds themselves come first) get embeddings
 	Pads         []byte // embedding pad bytes (default: 'a' and ' ')
+	SeedEmbTokN  int    // token alphabet size for the seeds that get embeddings (0 = TokN)
 	TokL         int    // seed haystacks: sequences of ≤ TokL tokens
 	TokN         int    // token alphabet size for seeds
 	SeedEmbW     int    // seed embeddings: |w| ≤ this many tokens
@@ -147,9 +148,14 @@ func (sp *Space) Haystacks(u int) [][]byte {
 		return sp.HP
 	}
 	p := sp.Pats[u]
-	toks := space.TokensFor(p, sp.T.TokN)
+	emb := sp.T.SeedEmbW >= 0 && (sp.T.SeedEmbFirst == 0 || u-sp.NP < sp.T.SeedEmbFirst)
+	tn := sp.T.TokN
+	if emb && sp.T.SeedEmbTokN > 0 {
+		tn = sp.T.SeedEmbTokN
+	}
+	toks := space.TokensFor(p, tn)
 	words := space.WordList(toks, sp.T.TokL)
-	if sp.T.SeedEmbW >= 0 && (sp.T.SeedEmbFirst == 0 || u-sp.NP < sp.T.SeedEmbFirst) {
+	if emb {
 		ew := space.WordList(toks, sp.T.SeedEmbW)
 		words = space.Union(words, space.Embed(ew, sp.pads(), space.EmbedI, sp.seedJ()))
 	}
@@ -175,7 +181,7 @@ func (sp *Space) Bounds() map[string]any {
 		"pattern_ast_nodes_max": sp.T.PN, "seed_edit_distance": sp.T.SK, "patterns": len(sp.Pats), "patterns_P": sp.NP,
 		"haystack_symbols_ascii": sp.T.LASCII, "haystack_symbols_ascii_large_patterns": sp.T.LBig, "haystack_symbols_utf8_large_patterns": sp.T.LUTF8Big, "haystack_symbols_raw_large_patterns": sp.T.LRawBig, "haystack_symbols_utf8": sp.T.LUTF8, "haystack_symbols_raw": sp.T.LRaw,
 		"haystacks_per_P_pattern": len(sp.HP), "haystacks_per_small_P_pattern": len(sp.HPE), "embedding_pattern_nodes_max": sp.T.EmbedPN, "seed_embedding_right_pads": sp.seedJ(), "embedding_word_len": sp.T.EmbedW, "seed_token_alphabet": sp.T.TokN,
-		"seed_token_len": sp.T.TokL, "seed_embedding_word_len": sp.T.SeedEmbW, "seed_embeddings_first_n_seed_patterns": sp.T.SeedEmbFirst, "modes": sp.T.Modes,
+		"seed_token_len": sp.T.TokL, "seed_embedding_word_len": sp.T.SeedEmbW, "seed_embeddings_first_n_seed_patterns": sp.T.SeedEmbFirst, "seed_embedding_token_alphabet": sp.T.SeedEmbTokN, "modes": sp.T.Modes,
 	}
 }
 
